@@ -32,7 +32,7 @@ func operandInState(name string, dims []int, state int) (T, []float64) {
 var c08Ops = []string{
 	"Scale", "Pow", "Exp", "Log", "Sin", "Cos", "Tan", "Sinh", "Cosh", "Tanh",
 	"Transpose", "Reshape", "UnSqueeze", "Squeeze", "Flatten", "Broadcast", "Slice",
-	"ReshapeSame", "FlattenLast", "BroadcastSame", "SliceWhole", "PatchWhole",
+	"ReshapeSame", "FlattenLast", "BroadcastSame", "SliceWhole", "PatchWhole", "PatchFull",
 	"SumAlong", "MaxAlong", "MinAlong", "AvgAlong", "VarAlong", "StdAlong", "MeanAlong",
 	"Add", "Sub", "Mul", "Div", "ElMax", "ElMin", "Dot", "MatMul", "Patch", "Concat2", "Concat3",
 	"Eq", "Ne", "Gt", "Ge", "Lt", "Le",
@@ -40,7 +40,7 @@ var c08Ops = []string{
 
 func c08Arity(op string) int {
 	switch op {
-	case "Add", "Sub", "Mul", "Div", "ElMax", "ElMin", "Dot", "MatMul", "Patch", "Concat2", "Eq", "Ne", "Gt", "Ge", "Lt", "Le":
+	case "Add", "Sub", "Mul", "Div", "ElMax", "ElMin", "Dot", "MatMul", "Patch", "PatchFull", "Concat2", "Eq", "Ne", "Gt", "Ge", "Lt", "Le":
 		return 2
 	case "Concat3":
 		return 3
@@ -85,6 +85,8 @@ func c08Apply(op string, xs []T) (T, error) {
 		return x.Slice(nil)
 	case "PatchWhole":
 		return x.Patch(nil, x)
+	case "PatchFull": // the source covers the whole target
+		return x.Patch(nil, xs[1])
 	case "Broadcast":
 		return x.Broadcast([]int{2, 2, 2})
 	case "Slice":
@@ -149,6 +151,35 @@ func H_C08_step() {
 	// operands keep their state
 	for i := 0; i < n; i++ {
 		vrt.Assert("operand tracking unchanged by a forward op", !vrt.Tracked(clean[i]) && !vrt.Dirty(clean[i]))
+	}
+	// back-propagating from the result reaches exactly the tracked tensors it was computed from
+	if !c08IsCmp(op) {
+		tracked := anyTracked && !anySpent
+		had := make([]bool, n)
+		wasDirty := make([]bool, n)
+		for i := 0; i < n; i++ {
+			had[i] = xs[i].Gradient() != nil
+			wasDirty[i] = vrt.Dirty(xs[i])
+		}
+		if !backprop(op, y) {
+			return
+		}
+		vrt.Assert("the root has a gradient exactly when it is tracked", (y.Gradient() != nil) == tracked)
+		vrt.Assert("the root is spent exactly when it was tracked", vrt.Dirty(y) == (tracked || anySpent))
+		for i := 0; i < n; i++ {
+			dup := false
+			for j := 0; j < i; j++ {
+				dup = dup || xs[j] == xs[i]
+			}
+			if dup {
+				continue
+			}
+			if tracked && vrt.Tracked(xs[i]) {
+				vrt.Assert("every tracked operand of a tracked root receives a gradient and is spent", xs[i].Gradient() != nil && vrt.Dirty(xs[i]))
+			} else {
+				vrt.Assert("nothing else is touched by the back-propagation", (xs[i].Gradient() != nil) == had[i] && vrt.Dirty(xs[i]) == wasDirty[i])
+			}
+		}
 	}
 	vrt.Reach("done")
 }
